@@ -153,6 +153,15 @@ def long_range(a: Any, b: Any) -> bool:
     return 10_000 < ib - ia < 2**62
 
 
+def position_core() -> list[Any]:
+    # JSON-like values only (the property's quantifier): no Decimal, no custom objects
+    return [
+        None, True, 0, -1, 2**63 + 1, V.HUGE, 1.5, 1e308, float("inf"), float("-inf"), float("nan"),
+        "", "abc", "9" * 400, "1e999", "-inf", "\ud800", "\x00", "%(x)s %", "<![x]>", "253402300800",
+        [], [None, 1, "a"], {}, {"a": 1}, range(1, 4), [float("inf"), float("-inf")], [[1, 2], [3, [4, 5]]],
+    ]
+
+
 def gen_filter_case(rng, fnames: list[str], pool: list[Any]) -> dict[str, Any]:
     f = rng.choice(fnames)
     if f == "json":
@@ -312,7 +321,28 @@ def cases(ctx: core.Ctx):
                 expr += ": a0"
             yield {"kind": "sweep1", "source": "{{ " + expr + " }}", "data": V.enc(data), "mode": "strict", "extra": True}
         ctx.extra["exhaustive_single_argument_sweep"] = f"{len(fnames)} filters x {len(pool)} left x {len(pool) + 1} arg"
-    n = ctx.budget(60000, 3_000_000)
+    # every filter x every argument position (left value, 1st..3rd argument of 1..3) x a core of hostile values, the other
+    # positions filled with harmless values: a conversion that only one parameter of one filter performs is reached by construction
+    core_vals = position_core()
+    fillers = [1, "a", 2]
+    idx = 0
+    for f in fnames:
+        for nargs in range(0, 4):
+            for pos in range(0, nargs + 1):
+                for v in core_vals:
+                    idx += 1
+                    if idx % ctx.nshards != ctx.shard:
+                        continue
+                    if pos and resource_heavy(f, v):
+                        continue
+                    data = {"l": v if pos == 0 else "a b"}
+                    args = []
+                    for i in range(nargs):
+                        data[f"a{i}"] = v if pos == i + 1 else fillers[i]
+                        args.append(f"a{i}")
+                    yield {"kind": "position", "source": "{{ l | " + f + (": " + ", ".join(args) if args else "") + " }}", "data": V.enc(data), "mode": "strict", "extra": True, "async": idx % 11 == 0}
+    ctx.extra["position_sweep"] = f"{len(fnames)} filters x positions 0..3 of 0..3 arguments x {len(core_vals)} hostile values"
+    n = ctx.budget(50000, 3_000_000)
     for i in range(n):
         r = rng.random()
         if r < 0.45:
